@@ -55,6 +55,17 @@ def Buffer_new (s : Bytes) : Buffer := s
 def Buffer_WriteString (b : Buffer) (s : Bytes) : Buffer := b ++ s
 def Buffer_String (b : Buffer) : Bytes := b
 
+def Buffer_Len (b : Buffer) : Int := (b.length : Nat)
+
+/-- a `*strings.Replacer` is the flat list of its `old, new` arguments; `Replace` is the model's `replaceAll` (Model/Router.lean:
+at each position the first listed non-empty key that is a prefix there is replaced, its value not re-scanned) -/
+abbrev Replacer := List Bytes
+def strings_NewReplacer (pairs : List Bytes) : Replacer := pairs
+def pairUp : List Bytes → List (Bytes × Bytes)
+  | k :: v :: rest => (k, v) :: pairUp rest
+  | _ => []
+def Replacer_Replace (r : Replacer) (s : Bytes) : Bytes := Flamego.replaceAll (pairUp r) s
+
 /-- the errors `constructMatchStyleRegex` builds, told apart by their format string (the position in the message is a
 detail): 1 empty element, 2 non-regex literal in a parameter list, 3 an expression that does not compile, 4 a bind used
 twice in the segment -/
